@@ -7,12 +7,13 @@ MODS = load_props()
 PROPS = {k: m.CFG for k, m in MODS.items()}
 TEXT = {k: m.MANIFEST for k, m in MODS.items() if hasattr(m, 'MANIFEST')}
 NOT_YET = {}
+READY = set(l.strip() for l in open('/verif/checks/READY') if l.strip() and not l.startswith('#'))
 props = [json.loads(l) for l in open('/verif/properties.jsonl')]
 checks = []
 na = []
 for p in props:
     pid = p['id']
-    if pid in PROPS and pid in TEXT:
+    if pid in PROPS and pid in TEXT and pid in READY:
         t = TEXT[pid]
         checks.append(dict(property_id=pid, quick_cmd=f'./check {pid} quick', thorough_cmd=f'./check {pid} thorough',
                            evidence_file=f'/verif/evidence/{pid}.json', replay_cmd_template=f'./check {pid} --replay {{path}}',
